@@ -300,7 +300,7 @@ def run_expr_battery(repo, seed=1, count=400):
     return run_scenario(repo, battery_source("expr_battery.go.txt", seed, count), "Test_Replay", imports=EXPR_IMPORTS)
 
 
-@adapter(r"^core\.(Add|Sub|Mul|Div|isIntKind):|^base\.compareIntegers:|^base\.\(\*(Expression|MathExpression|ExpressionAtom|Constant)\)\.Evaluate:|GengineParserListener\)\.(EnterRuleEntity|ExitAt\w+):")
+@adapter(r"^core\.(Add|Sub|Mul|Div|isIntKind):|^base\.compareIntegers:|^base\.\(\*(Expression|MathExpression|ExpressionAtom|Constant)\)\.Evaluate:|GengineParserListener\)\.(EnterRuleEntity|ExitAt\w+|ExitInteger|ExitRealLiteral|ExitBooleanLiteral|ExitStringLiteral|ExitVariable|ExitConstant|ExitMathExpression|ExitExpression|ExitExpressionAtom|ExitMathPmOperator|ExitMathMdOperator|ExitComparisonOperator|ExitLogicalOperator|ExitNotOperator):")
 def expr_battery(prop, name, ob, repo, work):
     return run_expr_battery(repo)
 
@@ -312,7 +312,7 @@ def run_inject_battery(repo, seed=1, count=0):
     return run_scenario(repo, battery_source("inject_battery.go.txt", seed, count), "Test_Replay", imports=INJECT_IMPORTS)
 
 
-@adapter(r"^core\.(GetWantedValue|ParamsTypeChange|getNumType|SetSingleValue|SetAttributeValue|GetStructAttributeValue|GetRawTypeValue|InvokeFunction):|^base\.\(\*(MapVar|Arg|Args)\)\.Evaluate:|^context\.\(\*DataContext\)\.(GetValue|SetValue|SetMapVarValue|ExecFunc|ExecMethod|ExecThreeLevel):")
+@adapter(r"^core\.(GetWantedValue|ParamsTypeChange|getNumType|SetSingleValue|SetAttributeValue|GetStructAttributeValue|GetRawTypeValue|InvokeFunction):|^base\.\(\*(MapVar|Arg|Args)\)\.Evaluate:|^context\.\(\*DataContext\)\.(GetValue|SetValue|SetMapVarValue|ExecFunc|ExecMethod|ExecThreeLevel):|GengineParserListener\)\.Exit(StringLiteral|Integer|MapVar|Variable|FunctionCall|MethodCall|ThreeLevelCall|FunctionArgs):")
 def inject_battery(prop, name, ob, repo, work):
     return run_inject_battery(repo)
 
@@ -353,6 +353,18 @@ def compile_battery(prop, name, ob, repo, work):
     return run_compile_battery(repo)
 
 
+SEQ_IMPORTS = ("fmt", "math/rand", "github.com/bilibili/gengine/builder")
+
+
+def run_seq_battery(repo, seed=1, count=150):
+    return run_scenario(repo, battery_source("seq_battery.go.txt", seed, count), "Test_Replay", imports=SEQ_IMPORTS)
+
+
+@adapter(r"^engine\.\(\*Gengine\)\.(Execute|ExecuteWithStopTagDirect|ExecuteSelectedRules|ExecuteSelectedRulesWithControl|ExecuteSelectedRulesWithControlAndStopTag)(\$\d+)?:")
+def seq_battery(prop, name, ob, repo, work):
+    return run_seq_battery(repo)
+
+
 STMT_IMPORTS = ("fmt", "sort", "strings", "github.com/bilibili/gengine/builder", "github.com/bilibili/gengine/context")
 
 
@@ -360,6 +372,6 @@ def run_stmt_battery(repo, seed=1, count=0):
     return run_scenario(repo, battery_source("stmt_battery.go.txt", seed, count), "Test_Replay", imports=STMT_IMPORTS)
 
 
-@adapter(r"^base\.\(\*(Statements|Statement|IfStmt|ElseStmt|ElseIfStmt|ForStmt|ForRangeStmt|BreakStmt|ContinueStmt|Assignment)\)\.(Evaluate|Accept\w+):|^iter\.")
+@adapter(r"^base\.\(\*(Statements|Statement|IfStmt|ElseStmt|ElseIfStmt|ForStmt|ForRangeStmt|BreakStmt|ContinueStmt|Assignment)\)\.(Evaluate|Accept\w+):|^iter\.|GengineParserListener\)\.Exit(Statements?|IfStmt|ElseStmt|ElseIfStmt|ForStmt|ForRangeStmt|BreakStmt|ContinueStmt|ReturnStmt|RuleContent|Assignment|AssignOperator):")
 def stmt_battery(prop, name, ob, repo, work):
     return run_stmt_battery(repo)
